@@ -17,6 +17,7 @@
 # -----------------------------------------------------------------------------
 import asyncio as aio
 import logging
+import struct
 from .. import encoding as enc
 from .. import security as sec
 from .. import types
@@ -61,7 +62,9 @@ class NfdRegister(PrefixRegisterer):
                     logging.getLogger(__name__).debug('Registration for %s succeeded: %s %s',
                                                       enc.Name.to_str(name), ret["status_code"], ret["status_text"])
                     return True
-            except (types.InterestNack, types.InterestTimeout, types.InterestCanceled, types.ValidationFailure) as e:
+            except (types.InterestNack, types.InterestTimeout, types.InterestCanceled, types.ValidationFailure,
+                    enc.DecodeError, ValueError, IndexError, struct.error) as e:
+                # The last four: the reply is not a decodable ControlResponse
                 logging.getLogger(__name__).error(
                     f'Registration for {enc.Name.to_str(name)} failed: {e.__class__.__name__}')
                 return False
@@ -76,10 +79,12 @@ class NfdRegister(PrefixRegisterer):
                     break
                 await aio.sleep(0.001)
             try:
-                await self.app.express(
+                _, reply, _ = await self.app.express(
                     nfd_mgmt.make_command_v2('rib', 'unregister', self.app.face, name=name),
                     app_param=b'', signer=sec.DigestSha256Signer(for_interest=True),
                     validator=pass_all, lifetime=1000)
-                return True
-            except (types.InterestNack, types.InterestTimeout, types.InterestCanceled, types.ValidationFailure):
+                ret = nfd_mgmt.parse_response(reply)
+                return ret['status_code'] == 200
+            except (types.InterestNack, types.InterestTimeout, types.InterestCanceled, types.ValidationFailure,
+                    enc.DecodeError, ValueError, IndexError, struct.error):
                 return False
